@@ -3,6 +3,7 @@ package protofields
 import (
 	"strings"
 
+	apb "github.com/google/fhir/go/proto/google/fhir/proto/annotations_go_proto"
 	dtpb "github.com/google/fhir/go/proto/google/fhir/proto/r4/core/datatypes_go_proto"
 	bcrpb "github.com/google/fhir/go/proto/google/fhir/proto/r4/core/resources/bundle_and_contained_resource_go_proto"
 	"github.com/iancoleman/strcase"
@@ -124,8 +125,16 @@ func StringValueFromCodeField(message proto.Message) (string, bool) {
 		field := reflect.Descriptor().Fields().ByName(protoreflect.Name("value"))
 		if field.Kind() == protoreflect.EnumKind {
 			enum := reflect.Get(field).Enum()
-			code := string(field.Enum().Values().ByNumber(enum).Name())
-			return strcase.ToKebab(code), true
+			value := field.Enum().Values().ByNumber(enum)
+			if value == nil {
+				return "", true
+			}
+			// Codes that are not valid enum identifiers ("<", ">=", "C", "text/cql", …) are
+			// recorded on the enum value.
+			if original, _ := proto.GetExtension(value.Options(), apb.E_FhirOriginalCode).(string); original != "" {
+				return original, true
+			}
+			return strings.ReplaceAll(strings.ToLower(string(value.Name())), "_", "-"), true
 		}
 		if field.Kind() == protoreflect.StringKind {
 			return reflect.Get(field).String(), true
